@@ -221,6 +221,8 @@ struct Report {
     followup: Option<(String, String)>,
     complete: bool,
     recovery_events: u64,
+    /// `hash_table_utilization().occupied` of the handle that performed the recovery (after the follow-up commit)
+    occupied: Option<usize>,
 }
 
 fn parse_report(path: &str) -> Report {
@@ -242,7 +244,7 @@ fn parse_report(path: &str) -> Report {
                 }
             }
             "END" => r.complete = true,
-            "occupied" => {}
+            "occupied" => r.occupied = f.get(1).and_then(|x| x.parse().ok()),
             _ => r.problems.push(l.to_string()),
         }
     }
@@ -617,6 +619,12 @@ pub fn run(args: &[String], out: &mut Sink) {
                                     let exp = format!("{d}.expected");
                                     let body: String = m.iter().map(|(k, v)| format!("{} {} {}\n", hex(k), hex(&vhash(v)), v.len())).collect();
                                     let _ = std::fs::write(&exp, body);
+                                    // C19: what the RECOVERING handle reports as occupancy (after its follow-up commit) must be the number of
+                                    // full buckets of the table it leaves behind (the driver compares `occupied.txt` with its own count)
+                                    if let Some(o) = rep.occupied {
+                                        let _ = std::fs::write(format!("{d}/occupied.txt"), o.to_string());
+                                        out.count("recovered_occupancy_compared");
+                                    }
                                     let res = Command::new(driver)
                                         .arg("image")
                                         .stdin(std::process::Stdio::piped())
@@ -638,6 +646,8 @@ pub fn run(args: &[String], out: &mut Sink) {
                                                 } else {
                                                     out.count("recovered_images_with_leaked_pages");
                                                 }
+                                            } else if line.starts_with("bad occupancy") {
+                                                out.fail(format!("C19 occupancy reported by the handle that recovered the directory: {} after {desc}", line.chars().take(300).collect::<String>()));
                                             } else {
                                                 out.fail(format!("C16 image monitor on the recovered directory: {} after {desc}", line.chars().take(300).collect::<String>()));
                                             }
